@@ -303,11 +303,9 @@ func vC23GenFrames(g *vC23Gen, max int) ([][]byte, string) {
 	cl := "small"
 	for i := 0; i < k; i++ {
 		s, c := g.sizeClass(max)
-		if c == "big" {
-			s = 8000 // 13-bit AU size field
-		}
-		if s > 8191 {
-			s = 8191
+		// the depacketizer refuses an access unit above mpeg4audio.MaxAccessUnitSize (5 KiB): the round trip's precondition
+		if c == "big" || s > 5120 {
+			s = 5120
 		}
 		if c != "small" {
 			cl = c
